@@ -168,6 +168,28 @@ def codec_small_inputs_c02():
                 bad.append((stream.hex()[:120], str(objs)[:80]))
                 if len(bad) > 5:
                     break
+    # REGISTERED (vendor, code) pairs sent with their class's default flags (so the known flag finding does not
+    # apply): dictionary class, data octet for octet as on the wire -- identities in absolute form (trailing dot),
+    # text that is not ASCII, leading / trailing blanks and NULs included
+    import bromelia.avps as _A
+    reg = [(264, b"\x40", "OriginHostAVP", [b"host.example.com.", b"h", b" host ", b"host\x00"]),
+           (296, b"\x40", "OriginRealmAVP", [b"example.", b"EXAMPLE.Com"]),
+           (283, b"\x40", "DestinationRealmAVP", [b"example.com.", b"."]),
+           (1, b"\x40", "UserNameAVP", [b"user.", b"\xc3\xa1lvaro", b"\xff\xfe"]),
+           (263, b"\x40", "SessionIdAVP", [b"a.example;1;2", b"a.example.;1;2;x\xe9"]),
+           (268, b"\x40", "ResultCodeAVP", [b"\x00\x00\x07\xd1", b"\x00\x00\x00\x00"])]
+    for code, fl, cname, datas in reg:
+        for d in datas:
+            n += 1
+            stream = enc_avp(code.to_bytes(4, "big"), fl, None, d)
+            try:
+                objs = B.DiameterAVP.load(stream)
+                ok = len(objs) == 1 and type(objs[0]).__name__ == cname and (objs[0].data or b"") == d \
+                    and objs[0].dump() == stream
+            except BaseException as e:  # noqa
+                ok, objs = False, "raised " + type(e).__name__
+            if not ok:
+                bad.append((stream.hex()[:120], str(objs)[:80]))
     # Grouped AVPs of a registered class (Failed-AVP, default flags so the known flag finding does not apply) whose
     # members are generic AVPs, some byte-identical, one level of nesting: every member survives, in order
     bad_g, ng = [], 0
